@@ -496,6 +496,38 @@ theorem template_vector_of_vector_panics :
       [⟨⟨{}, .vector .float32 2⟩, .lvalue⟩] = .panic := by decide
 
 
+/-- **`T` matches every argument exactly**: a template `f(T a)` called with any argument whose type is not an
+    untyped literal (any value category, any qualifiers, scalars, vectors, matrices, structs, enums, arrays) is viable
+    with rank Exact/Exact — so next to it no ordinary overload can be selected unless it is exact as well -/
+theorem template_param_matches_exactly (id : Nat) (a : ETy) (h : NonLiteral a.ty.layer) :
+    rankG [a] ((TCand.mk id [.type] [⟨.tvar 0, .in⟩] 1).toG []) = .ranked id [⟨.exact, .exact⟩] :=
+  tvar_in_param_matches_exactly id a h
+
+/-- templates whose parameters are concrete types or bare `T`s never reach a panic site, whatever the explicit
+    template arguments and the call: the instantiation panic needs a `vector<T, n>` / `matrix<T, x, y>` / `T[n]` parameter -/
+theorem simple_templates_never_panic (cands : List TCand) (h : ∀ c ∈ cands, SimpleTemplate c) (explicit : List TArg)
+    (args : List ETy) : NoPanicG (cands.map (TCand.toG explicit)) args := by
+  intro g hg
+  obtain ⟨c, hc, rfl⟩ := List.mem_map.mp hg
+  exact simple_template_never_panics c (h c hc) explicit args
+
+/-- hence for such overload sets a unique exact match is selected — no panic hypothesis -/
+theorem unique_exact_selectedT {cands : List TCand} (hs : ∀ c ∈ cands, SimpleTemplate c) (explicit : List TArg)
+    {args : List ETy} (hid : (cands.map (·.id)).Nodup) {c : TCand} (hc : c ∈ cands)
+    (hex : ExactMatchG args (c.toG explicit))
+    (huniq : ∀ d ∈ cands, ExactMatchG args (d.toG explicit) → d.id = c.id) :
+    resolveT cands explicit args = .selected c.id := by
+  have h := unique_exact_selectedG (cands := cands.map (TCand.toG explicit)) (args := args)
+    (fun g hg => by obtain ⟨d, _, rfl⟩ := List.mem_map.mp hg; exact tcand_wf explicit d)
+    (by simpa [List.map_map, Function.comp_def, TCand.toG] using hid)
+    (simple_templates_never_panic cands hs explicit args)
+    (List.mem_map.mpr ⟨c, hc, rfl⟩) hex
+    (by
+      intro g hg hge
+      obtain ⟨d, hd, rfl⟩ := List.mem_map.mp hg
+      exact huniq d hd hge)
+  exact h
+
 /-! ## the tie of the hand-written model to the source text
 
 `Gen.ResolveShape` is re-extracted from typer/src/typer/{expressions,scopes}.rs on every run. -/
